@@ -427,6 +427,48 @@ Fixpoint run_unit (cfg : config) (st : sstate) (l : list (netmsg * env))
         :: (if existsb is_stop eff then [] else run_unit cfg st' r)
   end.
 
+(* ---------- local (not peer-caused) events: handle_supervisor_evt, PidLifecycleEvent ----------
+   after_authenticated installs the pid-registry monitor; from then on the spawn / exit of
+   a local actor that supports remoting changes the advertised set and is announced. *)
+Definition local_spawn (st : sstate) (pid : N) (remotable : bool) : sstate * list effect :=
+  if a_is_ok (s_auth st) && remotable
+  then (set_adv st (add pid (s_adv st)), send st (ESendControl (KSpawn [(pid, None)])))
+  else (st, []).
+
+Definition local_terminate (st : sstate) (pid : N) (remotable : bool) : sstate * list effect :=
+  if a_is_ok (s_auth st) && remotable
+  then (set_adv st (remove pid (s_adv st)), send st (ESendControl (KTerminate [pid])))
+  else (st, []).
+
+Inductive input :=
+| IPeer (m : netmsg) (e : env)
+| ISpawn (pid : N) (remotable : bool)
+| ITerminate (pid : N) (remotable : bool).
+
+Definition step_in (cfg : config) (st : sstate) (i : input) : sstate * list effect :=
+  match i with
+  | IPeer m e => handle cfg st m e
+  | ISpawn pid r => local_spawn st pid r
+  | ITerminate pid r => local_terminate st pid r
+  end.
+
+Fixpoint run_in_log (cfg : config) (st : sstate) (l : list input)
+  : list (sstate * input * list effect) :=
+  match l with
+  | [] => []
+  | i :: r => let '(st', eff) := step_in cfg st i in (st, i, eff) :: run_in_log cfg st' r
+  end.
+
+Fixpoint run_in_view (cfg : config) (st : sstate) (l : list input)
+  : list (bool * bool * list effect) :=
+  match l with
+  | [] => []
+  | i :: r =>
+      let '(st', eff) := step_in cfg st i in
+      (a_is_ok (s_auth st'), self_connection cfg st', eff)
+        :: (if existsb is_stop eff then [] else run_in_view cfg st' r)
+  end.
+
 End Gate.
 
 (* ---------- the property as an executable oracle ---------- *)
